@@ -744,3 +744,40 @@ func requestIsReadOnly(c *Check, rule string) {
 	}
 	c.Obl(n > 50, rule, "request-read-only", "-", fmt.Sprintf("%d own functions, %d map updates: none writes into the request", n, sites), "own functions not enumerated (anchor lost)")
 }
+
+// responseFreshPerCheck: the CheckResponse a filter fills in (Set-Cookie with the session id, state and
+// nonce in the Location of a login redirect, forwarded tokens) belongs to this check alone — the object
+// handed to Process is allocated in the activation of Check that returns it, not taken from a pool, a
+// field or a package-level variable that another check can see while gRPC still has to serialise it.
+func responseFreshPerCheck(c *Check, rule string, R *Roles) {
+	P := c.P
+	pc := processInvoke(P, R)
+	if !c.Anchor(rule, "Process invocation in Check", pc != nil) {
+		return
+	}
+	fn := pc.Parent()
+	args := callArgs(pc)
+	var resp ssa.Value
+	for _, a := range args {
+		if strings.HasSuffix(typeID(derefType(a.Type())), "auth/v3.CheckResponse") {
+			resp = a
+		}
+	}
+	if resp == nil {
+		c.Fail(rule, "response-fresh-per-check", P.Pos(pc.Pos()), "Process is not handed a *CheckResponse")
+		return
+	}
+	bad := ""
+	for _, l := range LeavesInl(resp, leafOpts{noConcat: true}, 2, func(f *ssa.Function) bool { return !isOwnPath(pkgPathOf(f)) }) {
+		l = resolveCell(stripConv(l))
+		if al, ok := l.(*ssa.Alloc); ok && isOwnPath(pkgPathOf(al.Parent())) {
+			continue
+		}
+		if p, ok := l.(*ssa.Parameter); ok && p.Parent() != R.CheckEntry {
+			continue // helper parameter resolved by the interprocedural walk
+		}
+		bad = descDepth(l, 3)
+	}
+	c.Obl(bad == "", rule, "response-fresh-per-check", P.Pos(pc.Pos()), "the response the filters write to is allocated by this check ("+fnKey(fn)+")",
+		"the response the filters write to can be "+bad+": an object another check can reach while this answer is still waiting to be sent carries one client's session cookie, state and nonce to another")
+}
